@@ -116,6 +116,16 @@ def check_refusals(case):
                     return ('refusal#unmodifiable property through custom_properties', f'{kind}: new_version(custom_properties={{{prop!r}: ...}}) gave the new version {prop}={nv.get(prop)!r} (original: {obj.get(prop)!r})', {})
             except E.STIXError: pass
             except (ValueError, TypeError): pass
+    # a removal request (None) for a locked property is a change of that property: refused, or at least without effect
+    locked = ['id', 'type', 'created', 'created_by_ref']
+    if not isinstance(obj, dict) and hasattr(type(obj), '_id_contributing_properties') and str(obj.get('id', ''))[-36:][14] == '5': locked += [p for p in type(obj)._id_contributing_properties if p in obj]
+    for prop in locked:
+        for how in ('keyword', 'custom_properties'):
+            if how == 'custom_properties' and isinstance(obj, dict): continue
+            try: nv = V.new_version(obj, **({prop: None} if how == 'keyword' else {'custom_properties': {prop: None}}))
+            except (E.STIXError, ValueError, TypeError): continue
+            if nv.get(prop) != obj.get(prop):
+                return ('refusal#removal of an unmodifiable property', f'{kind}: new_version({prop}=None) [{how}] gave the new version {prop}={nv.get(prop)!r} (original: {obj.get(prop)!r})', {})
     old = obj['modified']
     for supplied in (old, (old if isinstance(old, str) else None)):
         if supplied is None: continue
@@ -223,6 +233,37 @@ def run(chk):
                 bound='10 object kinds x 4 microsecond patterns x 8 clock offsets (-1s..+1s) x 5 change sets')
     chk.bounded('native refusals: unmodifiable properties, non-later modified, revoked', [(k, o) for k, o in objs if k != 'dict-unregistered' and 'Relationship' not in k], check_refusals,
                 classify=lambda c: c[0], bound='each base object')
+    # ---- history: what may be changed does not depend on what was versioned before (lists of locked names are per call, never accumulated)
+    import stix2, stix2.versioning as V
+    from vf import objgen as G
+    unmod_before = list(V.STIX_UNMOD_PROPERTIES)
+    def legal_changes(stage):
+        for k, o in objs:
+            if k == 'dict-unregistered' or 'Relationship' in k: continue
+            declared = set(o) if isinstance(o, dict) else set(getattr(type(o), '_properties', {}))
+            for ch in ({'name': 'renamed'}, {'description': 'd2'}, {'labels': ['l2']}, {'value': 'v2'}, {'size': 7}):
+                if not set(ch) <= declared: continue
+                try: nv = V.new_version(o, **ch)
+                except Exception as ex:
+                    chk.violation('history#a legal change is accepted whatever was versioned before', f'{stage}: new_version({k}, **{ch}) refused: {type(ex).__name__}: {str(ex)[:140]}', {'stage': stage}); return False
+                if any(nv.get(a) != b for a, b in ch.items()):
+                    chk.violation('history#a legal change is applied', f'{stage}: new_version({k}, **{ch}) -> {[(a, nv.get(a)) for a in ch]}', {'stage': stage}); return False
+        return True
+    n_hist = 0
+    if legal_changes('fresh process'):
+        for cname, (cat, cls) in sorted(G.classes('2.1').items()):
+            if cat != 'observables': continue
+            try: o = cls(allow_custom=True, created=G.T1, modified=G.T1, revoked=False, **{k: v for k, v in G.minimal(cls, '2.1').items() if k != 'id'})
+            except Exception: continue
+            for op in (lambda: V.new_version(o, modified=G.T2), lambda: V.new_version(json.loads(o.serialize()), modified=G.T2), lambda: V.new_version(o, x_new=1, allow_custom=True), lambda: V.revoke(o)):
+                n_hist += 1
+                try: op()
+                except Exception: pass
+        legal_changes('after versioning operations on observables of every 2.1 type')
+        if list(V.STIX_UNMOD_PROPERTIES) != unmod_before:
+            chk.violation('history#the list of unmodifiable properties is a constant', f'STIX_UNMOD_PROPERTIES is {list(V.STIX_UNMOD_PROPERTIES)} after versioning operations, {unmod_before} before', {})
+    chk.bounded_runs.append({'name': 'history: legal changes before and after versioning operations on observables', 'bound': 'every 2.1 observable type x 4 operations, then 3 change sets on every base object', 'evaluations': n_hist,
+                             'distinct_classes': None, 'witnesses': 0, 'wall_s': 0, 'samples': []})
     ops = ['nv', 'mark', 'unmark', 'revoke']
     import stix2.markings as MK
     TLP = 'marking-definition--f88d31f6-486f-44da-b317-01333bde0b82'
